@@ -23,7 +23,8 @@ def gen_case(rng, idx, tier):
     if rational:
         cur = gen.curve(rng, pmax=3, nintmax=2, rational=True, wratio=9)
     else:
-        cur = gen.curve(rng, pmax=4, nintmax=4, rational=False)
+        deep = tier == "thorough" and rng.random() < 0.25
+        cur = gen.curve(rng, pmax=6 if deep else 4, nintmax=6 if deep else 4, rational=False)
     if rng.random() < 0.15:
         U = gen.integer_kv(rng, pmax=3, nintmax=3)
         p, n = ref.wellformed(U)
